@@ -465,9 +465,17 @@ def _tokenize(s):
             toks.append(("num", int(s[i:j])))
             i = j
         elif c.isalpha() or c == "_":
+            # QName = NCName (':' (NCName | '*'))?  - at most one colon
             j = i
-            while j < n and (s[j].isalnum() or s[j] in "_-." or (s[j] == ":" and j + 1 < n and s[j + 1] != ":" and (s[j + 1].isalpha() or s[j + 1] in "_*"))):
+            while j < n and (s[j].isalnum() or s[j] in "_-."):
                 j += 1
+            if j + 1 < n and s[j] == ":" and s[j + 1] != ":" and (s[j + 1].isalpha() or s[j + 1] in "_*"):
+                j += 1
+                if s[j] == "*":
+                    j += 1
+                else:
+                    while j < n and (s[j].isalnum() or s[j] in "_-."):
+                        j += 1
             toks.append(("name", s[i:j]))
             i = j
         else:
@@ -864,7 +872,11 @@ class XPath:
     def _axis(self, n, axis, test):
         if isinstance(n, str):
             if axis == "parent":
+                # XPath's parent of a text node is its parent in the XML tree: for a tail that is the
+                # parent of the element it follows (getparent() of an lxml smart string is that element)
                 p = n.getparent()
+                if p is not None and getattr(n, "is_tail", False):
+                    p = p._parent
                 return [p] if p is not None and self._match(p, test) else []
             if axis == "self":
                 return [n] if test[0] in ("text", "node") else []
